@@ -322,6 +322,8 @@ class Realiser:
                 return f
 
             return o.if_(cond, then_branch=mk(st["then"]), else_branch=mk(st["else"]))[0]
+        if op == "reffn":  # a Function subclass whose body refers to the function's attribute (tests/test_function.py idiom)
+            return self.ref_function(st)(env[st["args"][0]])
         if op == "loop":  # two iterations over one state; the body may use outer values
             o = ops(st["mv"])
             blk, pid = st["body"], st["param"]
@@ -360,6 +362,11 @@ class Realiser:
             self.uses_s = True
             args = args + [self.s]
         return mac["build"](ops(st["mv"]), st["mv"], args, st.get("p", {}))
+
+    def ref_function(self, st):
+        from harness import lib_c09_reffn
+
+        return lib_c09_reffn.make(ops(st["mv"]), st["name"], st["k"])
 
     def model_of(self, md):
         if md["kind"] == "ml_only":  # no default-domain node, no default-domain import
@@ -418,6 +425,8 @@ def np_stmt(st, env, c):
         e = dict(env)
         np_block(blk["nodes"], e, c)
         return e[blk["out"]]
+    if op == "reffn":
+        return (F32(st["k"]) * env[st["args"][0]]).astype(F32)
     if op == "loop":
         state = env[st["args"][0]]
         for _ in range(2):
@@ -474,7 +483,7 @@ def emitted(st) -> list[tuple[str, str, int]]:
         return out
     if op == "loop":
         return [("", "Loop", since("", "Loop", st["mv"])), ("", "Constant", since("", "Constant", st["mv"]))]
-    if op in ("inline", "func"):
+    if op in ("inline", "func", "reffn"):
         return []
     if op in ML_MACROS:
         res = []
@@ -525,13 +534,16 @@ def requirements_of_nodes(nodes) -> list[tuple[str, int]]:
             req += model_imports(st["model"]) + [("", 14)]
         if st["op"] == "func":
             req.append((st.get("domain", "spox.verif"), 0))
+        if st["op"] == "reffn":
+            req += [("", since("", "Constant", st["mv"])), ("", since("", "Mul", st["mv"])), ("", 14), ("spox.reffn", 0)]
         for b in sub_blocks(st):
             req += requirements_of_nodes(b["nodes"]) + [("", 14)]  # a body's results are identities >= 14
     return req
 
 
 def expected_imports(prog) -> dict[str, int]:
-    return policy(requirements_of_nodes(prog["nodes"]) + [("", 14)])
+    extra = [tuple(r) for r in prog.get("with_opset", [])]
+    return policy(requirements_of_nodes(prog["nodes"]) + [("", 14)] + extra)
 
 
 def walk(nodes, depth=0, in_func=False, path=()):
@@ -567,7 +579,7 @@ def tainted_ids(prog) -> set:
                 blk(st["body"]["nodes"], a)
                 t |= a
                 t.add(st["id"])  # spox reports a Loop's carried output without a shape unless it is provably stable
-            elif op in ("inline",) or op in ML_MACROS:
+            elif op in ("inline", "reffn") or op in ML_MACROS:
                 pass  # declared / inferred output types are concrete
             elif op == "func":
                 inner = {p for p, a in zip(st["params"], st["args"]) if a in t}
@@ -612,11 +624,13 @@ def features(prog) -> list[str]:
                 if conv and any(since("", n, own) != since("", n, imp) for n, _ in conv):
                     feats.add("conv-in-body-below-import")
                 if st["op"] == "inline":
-                    mi = dict(model_imports(st["model"])).get("", own)
+                    mi = policy(model_imports(st["model"])).get("", own)
                     if mi != imp:
                         feats.add("inline-in-body-below-import")
+        if st["op"] == "reffn" and since("", "Constant", st["mv"]) != since("", "Constant", imp):
+            feats.add("ref-attr-converted")
         if st["op"] == "inline":
-            mi = dict(model_imports(st["model"])).get("")
+            mi = policy(model_imports(st["model"])).get("")
             if mi is not None and mi < 14 and imp == 14:
                 feats.add("inline-below-14-target-14")
             elif mi is not None and mi != imp:
@@ -707,6 +721,9 @@ class Gen:
                 st = {"id": self.fresh(), "op": "loop", "mv": self.mv(), "param": pid, "body": body,
                       "args": [rng.choice(clean_pool or ["x"])]}
                 tainted.add(st["id"])
+            elif r < 0.22 and depth == 0 and not in_func and self.allow_func:
+                st = {"id": self.fresh(), "op": "reffn", "mv": self.mv(), "name": f"RefFn{next(_uid)}",
+                      "k": rng.choice([2.0, -0.5, 1.5]), "args": [rng.choice([p_ for p_ in pool if p_ not in tainted] or ["x"])]}
             elif r < 0.27 and self.allow_inline and not in_func:
                 st = {"id": self.fresh(), "op": "inline", "model": self.model_desc(),
                       "args": [rng.choice(pool)]}
@@ -796,6 +813,8 @@ class Gen:
             else:
                 outs.append(o)
         prog = sink(prune({"nodes": nodes, "outs": outs}))
+        if self.rng.random() < 0.12:
+            prog["with_opset"] = [[self.rng.choice(["ai.onnx", "ai.onnx", ""]), self.rng.randrange(13, 22)]]
         if self.clean:
             align_unknown_rank(prog)
         return prog
@@ -834,7 +853,7 @@ def align_unknown_rank(prog):
     imp = expected_imports(prog).get("", 14)
     mv = 21 if imp >= 21 else (19 if imp >= 19 else 17)
     for st, *_ in walk(prog["nodes"]):
-        if st["op"] in ("dyn", "fix"):
+        if st["op"] in ("dyn", "fix", "reffn"):  # reffn: its Constant carries a reference attribute
             st["mv"] = mv
 
 
@@ -867,7 +886,7 @@ def prune(prog):
         kept.reverse()
         return kept
 
-    return {"nodes": prune_nodes(prog["nodes"], set(prog["outs"])), "outs": list(prog["outs"])}
+    return dict(prog, nodes=prune_nodes(prog["nodes"], set(prog["outs"])), outs=list(prog["outs"]))
 
 
 def _refs(blk, sid) -> bool:
